@@ -354,6 +354,56 @@ pub fn run(ctx: &mut Ctx) -> (&'static str, String, bool) {
     }
     ctx.sample(json!({"mode": "compressed", "buffer": "00030000", "expectation": "size byte 0 announces an impossible length: framing error, no panic, nothing (or >= 4 bytes) removed"}));
     ctx.sample(json!({"mode": "uncompressed", "buffer": "0840000000090000", "expectation": "IS_CIM with sub-mode 9: packet or decode error after removing exactly 8 bytes"}));
+    // ---- the public framing rule itself: Mode::decode_length for every size byte x buffer lengths around it ------
+    {
+        use bytes::BytesMut;
+        use insim::net::Mode;
+        let mut p = Part::new();
+        for compressed in MODES {
+            let mode = if compressed { Mode::Compressed } else { Mode::Uncompressed };
+            let lim = limit(compressed);
+            for size in 0u16..=255 {
+                let n = if compressed { size as usize * 4 } else { size as usize };
+                let mut lens: Vec<usize> = (0..=8).collect();
+                lens.extend([n.saturating_sub(1), n, n + 1, n + 64, 1100]);
+                for blen in lens {
+                    let mut buf = vec![0xA5u8; blen];
+                    if blen > 0 {
+                        buf[0] = size as u8;
+                    }
+                    let src = BytesMut::from(&buf[..]);
+                    p.evaluations += 1;
+                    p.distinct(&("decode_length", compressed, size, blen));
+                    let got = guarded(|| mode.decode_length(&src).map_err(|e| e.kind()));
+                    let replay = json!({"mode": mode_name(compressed), "size_byte": size, "buffer_len": blen});
+                    let verdict = match &got {
+                        Err(pn) => Some(format!("panicked: {pn}")),
+                        Ok(r) => {
+                            if blen < 4 {
+                                (!matches!(r, Ok(None))).then(|| format!("{:?} for a buffer without a whole header", r))
+                            } else if n < 4 || n > lim {
+                                (!matches!(r, Err(_))).then(|| format!("{:?} for the impossible announced length {n}", r))
+                            } else if !compressed && n % 4 != 0 {
+                                // not chosen by the statement: a frame of that length or a framing error
+                                (!matches!(r, Err(_) | Ok(None)) && *r != Ok(Some(n))).then(|| format!("{:?}", r))
+                            } else if blen < n {
+                                (!matches!(r, Ok(None))).then(|| format!("{:?} although only {blen} of {n} bytes are buffered", r))
+                            } else {
+                                (*r != Ok(Some(n))).then(|| format!("{:?} for a complete frame of {n} bytes", r))
+                            }
+                        },
+                    };
+                    if let Some(v) = verdict {
+                        p.violation("C04/decode-length", format!("{} decode_length(size byte {size}, {blen} bytes buffered) = {v}", mode_name(compressed)), replay);
+                    }
+                    if src.len() != blen {
+                        p.violation("C04/decode-length/buffer-touched", "decode_length changed the buffer".to_string(), json!({"size_byte": size}));
+                    }
+                }
+            }
+        }
+        ctx.merge(p);
+    }
     ctx.assume("uncompressed announced lengths >= 4 that are not a multiple of 4 may be treated as a frame of that length or refused as a framing error: the statement does not choose");
     (
         "exploration",
